@@ -86,8 +86,11 @@ def run_case(acc, rnd, tier, case):
 
 def rename_case(acc, rnd, tier):
     T = TIERS[tier]
-    ch = fixed_width(rnd, gen_chart(rnd, mode=rnd.choice((None, 'orth', 'history', 'order', 'clash')), p_hist=0.4, p_internal=0.3,
-                                    p_state_send=0.1, **T['gen']))
+    short = rnd.random() < 0.2
+    ch = gen_chart(rnd, mode=rnd.choice((None, 'orth', 'history', 'order', 'clash')), p_hist=0.4, p_internal=0.3,
+                   p_state_send=0.1, p_short_names=1.0 if short else 0.0, **T['gen'])
+    if not short:
+        ch = fixed_width(rnd, ch)
     tr = Tree(ch)
     acc.count('rename_cases')
     names = list(ch['order'])
@@ -102,6 +105,24 @@ def rename_case(acc, rnd, tier):
         if pool:
             subset = list(set(subset + rnd.sample(pool, min(len(pool), rnd.randint(1, 3)))))
     new = {n: n[:-1] + '5' for n in subset}
+    if short:
+        # one- and two-letter names ('b', 'ab', 'qd'...): the next free letter / a doubled last letter, kept only where the
+        # relative order of all the names stays what it was
+        acc.count('rename_cases_with_short_names')
+        new = {}
+        for n in list(subset):
+            cand = [chr(ord(n[-1]) + 1)] if len(n) == 1 else []
+            cand += [n + n[-1], n[:-1] + chr(ord(n[-1]) + 1)]
+            for c in cand:
+                trial = dict(new)
+                trial[n] = c
+                mapped = [trial.get(x, x) for x in sorted(names)]
+                if len(set(mapped)) == len(mapped) and mapped == sorted(mapped) and c.isalnum():
+                    new = trial
+                    break
+        subset = list(new)
+        if not subset:
+            return
     sc_a, tmap_a = build.build_api(ch)
     sc_b, tmap_b = build.build_api(ch)
     if rnd.random() < 0.5:
@@ -199,7 +220,11 @@ def copy_case(acc, rnd, tier):
     host = Statechart('host')
     host.add_state(CompoundState('HOST', initial='IDLE'), None)
     host.add_state(BasicState('IDLE'), 'HOST')
-    host.add_state(BasicState('SLOT'), 'HOST')
+    # the placeholder may be of the very class of the state that replaces it (a compound state without children yet)
+    same_class = ch['states'][groot]['kind'] == 'compound' and rnd.random() < 0.5
+    host.add_state(CompoundState('SLOT') if same_class else BasicState('SLOT'), 'HOST')
+    if same_class:
+        acc.count('placeholders_of_the_class_of_the_copied_state')
     host.add_transition(Transition('IDLE', 'SLOT', event='enter'))
     # the host has its own transitions on the state that is going to be replaced (internal, self-loop, leaving): they stay, once each
     host_own = ['host:enter']
